@@ -27,7 +27,7 @@ func init() {
 		Level: "model_checking",
 		Rule: "bounded-exhaustive, for each registered property handler: good values = every single token of a pool (every string literal of css/handlers.go plus ~120 numeric / functional forms) the handler accepts, and every sequence of 2 (thorough 3) tokens from a representative sub-pool joined by ' ', ',', '/', ' / ' that the handler accepts; " +
 			"for every good value, every hostile fragment (url(javascript:..), url(data:..), url(//host), url(ftp://..), expression(), javascript:, data:, a backslash, \\75rl(, <, >, </style>, @import) inserted at every byte position, glued at both ends with and without separator, and (single-character fragments) substituted for every byte. " +
-			"Oracle: the handler rejects every such candidate (an independent scanner confirms each candidate contains a hostile construct); the handler for an unknown property rejects the whole pool; end to end, Policy.Sanitize with default handlers keeps the good values and removes a one-per-position subset of the candidates. " +
+			"Oracle: the handler rejects every such candidate (an independent scanner confirms each candidate contains a hostile construct); the handler for an unknown property rejects the whole pool, and ~60 names one edit away from each known property reject that property's values; end to end, Policy.Sanitize with default handlers keeps the good values and removes a one-per-position subset of the candidates. " +
 			"non-trivial = distinct (property, candidate) pairs built from a good value of at least two characters.",
 		Assumptions: []string{"'hostile' is decided by the scanner in internal/checks/c18.go: expression(, javascript:, data:, backslash, angle bracket, at-keyword, or a url() whose argument does not start with http: / https:"},
 		QuickBudget: 50, ThoroughBudget: 800,
